@@ -24,6 +24,7 @@ import (
 	"github.com/prometheus/client_golang/prometheus"
 
 	"github.com/prometheus/alertmanager/config"
+	"github.com/prometheus/alertmanager/dispatch"
 
 	hxp "verif/harness/hx"
 )
@@ -138,6 +139,7 @@ func (w *world) cfg(seed uint64, profile string) string {
 		desc = "- 0:" + hx("all") + ":~:~:0:~:~:0:~:~:- " + hxName("all") + ":~:0 ~ ~"
 	default:
 		c := genTree(r)
+		legacyMix(rand.New(rand.NewPCG(seed, 99)), c)
 		y, desc = c.yaml(), c.encode()
 	}
 	c, class, _ := safeLoad(y)
@@ -149,12 +151,15 @@ func (w *world) cfg(seed uint64, profile string) string {
 			_, err := config.Load(y)
 			fmt.Fprintln(os.Stderr, "secrets profile rejected:", err)
 		}
-		return fmt.Sprintf("%s %s - - - - - - - - -", desc, class)
+		return fmt.Sprintf("%s %s - - - - - - - - - -", desc, class)
 	}
 	tree, recvs, mutes, tis, rules := encodeLoaded(c)
 	str := c.String()
 	strhex, cans := "-", "-"
 	tree2, x1, x2 := "-", "-", "-"
+	// applying a configuration builds its routing tree (reloader.reload, api.Update): the loaded configuration is an input of
+	// that, its text afterwards is what it was before
+	built := treeBuildKeepsText(c, str)
 	if profile == "secrets" {
 		strhex = hex.EncodeToString([]byte(str))
 		var l []string
@@ -176,7 +181,24 @@ func (w *world) cfg(seed uint64, profile string) string {
 			x1 = rules
 		}
 	}
-	return fmt.Sprintf("%s ok %s %s %s %s %s %s %s %s %s", desc, tree, recvs, mutes, tis, strhex, cans, tree2, x1, x2)
+	return fmt.Sprintf("%s ok %s %s %s %s %s %s %s %s %s %s", desc, tree, recvs, mutes, tis, strhex, cans, tree2, x1, x2, built)
+}
+
+// treeBuildKeepsText builds the routing tree of c the way applying it does and reports whether Config.String() still is `before`.
+func treeBuildKeepsText(c *config.Config, before string) (res string) {
+	if c.Route == nil {
+		return "-"
+	}
+	defer func() {
+		if recover() != nil {
+			res = "panic"
+		}
+	}()
+	dispatch.NewRoute(c.Route, nil)
+	if c.String() == before {
+		return "same"
+	}
+	return "changed"
 }
 
 // containsValue reports whether some string reachable from v contains s.
